@@ -49,62 +49,58 @@ Theorem C11_in_partition :
 Proof. exact in_partition. Qed.
 Print Assumptions C11_in_partition.
 
+(* With the except clause around parseMsg in _read (repair of C07.F4; the caught
+   classes are regenerated from the source): if the parser raises nothing but what
+   that clause catches -- true of IrcMsg since the repair of C05.F3, checked by
+   the differential run -- then NO received byte stream can end the driver: a
+   rejected line is skipped, every other complete line is delivered, in order,
+   whatever the partition into reads. *)
+Theorem C11_in_reads_never_killed :
+  forall M decode ws (parse : str -> res M) sep,
+  (forall s e, parse s = Raise e -> read_catches e = true) ->
+  forall cs, Forall (fun c => c <> []) cs ->
+  let st := run_trace M decode ws parse sep (init M) (reads cs) in
+  dead st = None /\
+  delivered st = accepted_msgs M decode ws parse (spec_lines sep (concat cs)) /\
+  inbuffer st = spec_rest sep (concat cs).
+Proof. exact in_reads_never_killed. Qed.
+Print Assumptions C11_in_reads_never_killed.
+
 (* ---- outgoing ---- *)
 
-(* Full statement:  forall tr, let st := run tr in wire st ++ utf8 (outbuffer st) = utf8 (taken st)
-   (bytes accepted by the socket, then the encoding of what is still buffered =
-   the encoding of all messages taken, in order, each once).
-   The pinned code violates it (finding F11: the buffer is a str sliced by the
-   byte count).  Proved: it holds on out_dom (no short write ended beyond a
-   non-ASCII character), fails on a witness outside, fails on EVERY trace
-   outside (the domain is exact), and all-ASCII traffic is inside. *)
-Theorem C11_out_stream_on_domain :
+(* Full statement (finding C11.F11 repaired: the out-buffer holds the unsent
+   bytes).  For EVERY event trace: the bytes the socket has accepted, followed by
+   the bytes still buffered, are exactly the UTF-8 encoding of the text of the
+   messages that entered the buffer, in order, each once; that text is all the
+   text taken from the queue -- unless a last batch had no UTF-8 encoding (a lone
+   surrogate): its UnicodeEncodeError has then ended the driver before the
+   buffer was touched. *)
+Theorem C11_out_stream :
   forall M decode ws (parse : str -> res M) sep tr,
-  out_dom decode ws parse sep tr = true ->
   let st := run_trace M decode ws parse sep (init M) tr in
-  wire st ++ utf8 (outbuffer st) = utf8 (taken st).
-Proof. exact out_stream_on_domain. Qed.
-Print Assumptions C11_out_stream_on_domain.
+  wire st ++ outbuffer st = utf8 (queued st) /\
+  (taken st = queued st \/
+   (dead st <> None /\ exists d, taken st = queued st ++ d /\ forallb encodable d = false)).
+Proof. exact out_stream. Qed.
+Print Assumptions C11_out_stream.
 
-(* 'héllo', send() accepts 3 bytes, then everything: the socket gets 'hélo' *)
-Theorem C11_out_stream_refuted :
-  exists tr,
-  out_dom utf8_decode_replace gen.T11.WHITESPACE (parse_tbl []) gen.T11.LINE_SEP tr = false /\
-  let st := crun [] (init str) tr in
-  outbuffer st = [] /\ wire st = utf8 [104; 233; 108; 111] /\ wire st <> utf8 (taken st).
-Proof. exists f11_trace. exact f11_refutes. Qed.
-Print Assumptions C11_out_stream_refuted.
-
-Theorem C11_out_stream_off_domain :
+(* The clause as the property words it: whenever the text taken from the queue
+   has a UTF-8 encoding, wire ++ outbuffer is that encoding -- any partial
+   writes, EAGAINs, errors, reads in between. *)
+Theorem C11_out_stream_encodable :
   forall M decode ws (parse : str -> res M) sep tr,
-  out_dom decode ws parse sep tr = false ->
   let st := run_trace M decode ws parse sep (init M) tr in
-  (length (wire st) + length (utf8 (outbuffer st)) < length (utf8 (taken st)))%nat /\
-  wire st ++ utf8 (outbuffer st) <> utf8 (taken st).
-Proof. exact out_stream_off_domain. Qed.
-Print Assumptions C11_out_stream_off_domain.
-
-Theorem C11_out_ascii_in_domain :
-  forall M decode ws (parse : str -> res M) sep tr,
-  ascii_trace tr = true -> out_dom decode ws parse sep tr = true.
-Proof. exact out_ascii_in_domain. Qed.
-Print Assumptions C11_out_ascii_in_domain.
-
-(* Complete writes are inside the domain whatever the text: every send()
-   accepts at least as many bytes as the trace queues in total. *)
-Theorem C11_out_full_sends_in_domain :
-  forall M decode ws (parse : str -> res M) sep tr,
-  full_sends (trace_bytes tr) tr = true -> out_dom decode ws parse sep tr = true.
-Proof. exact out_full_in_domain. Qed.
-Print Assumptions C11_out_full_sends_in_domain.
+  forallb encodable (taken st) = true ->
+  wire st ++ outbuffer st = utf8 (taken st).
+Proof. exact out_stream_encodable. Qed.
+Print Assumptions C11_out_stream_encodable.
 
 (* EAGAIN accounting (_handleSocketError): a send() raising EAGAIN moves no byte
    and loses no text; the connection survives it exactly while the count of
    consecutive EAGAINs has not passed the limit (regenerated constants). *)
 Theorem C11_eagain_step :
   forall M decode ws (parse : str -> res M) sep (st : state M),
-  dead st = None -> connected st = true ->
-  outbuffer st <> [] -> forallb encodable (outbuffer st) = true ->
+  dead st = None -> connected st = true -> outbuffer st <> [] ->
   let st' := step M decode ws parse sep st (EvSend [] (SErr gen.T11.EAGAIN)) in
   outbuffer st' = outbuffer st /\ wire st' = wire st /\ taken st' = taken st /\ dead st' = None /\
   connected st' = (eagains st <=? gen.T11.EAGAIN_MAX)%N /\
@@ -113,14 +109,15 @@ Proof. exact eagain_step. Qed.
 Print Assumptions C11_eagain_step.
 
 (* Progress: on a live connection, sends that accept at least one byte empty
-   the buffer within |outbuffer| calls (no message is taken or lost meanwhile). *)
+   the buffer within |outbuffer| calls: every buffered byte reaches the socket,
+   no message is taken or lost meanwhile. *)
 Theorem C11_out_progress :
   forall M decode ws (parse : str -> res M) sep ks st,
   dead st = None -> connected st = true ->
-  forallb encodable (outbuffer st) = true ->
   Forall (fun k => (1 <= k)%N) ks ->
   (length (outbuffer st) <= length ks)%nat ->
   let st' := run_trace M decode ws parse sep st (drains ks) in
-  outbuffer st' = [] /\ dead st' = None /\ connected st' = true /\ taken st' = taken st.
+  outbuffer st' = [] /\ dead st' = None /\ connected st' = true /\ taken st' = taken st /\
+  wire st' = wire st ++ outbuffer st.
 Proof. exact out_progress. Qed.
 Print Assumptions C11_out_progress.
